@@ -140,8 +140,42 @@ TOKENS = (
     b"'nonce-'", b"'sha999-YQ=='", b'http://[', b'http://[::1', b'//', b':', b'::', b'\r\n', b'\r\n\r\n', b'\x00',
     b'{x}=y', b'{0}', b'{}', b'{{k}}=v', b'%s', b'%(a)s=1', b'a{b=c', b'}', b'\\', b'`x`', b'<b>', b'*x*', b'# h', b'a|b',
     b'k=\xc3\xa9', b'_=_', b'__class__=1', b'a b=c d',
+    b'Fri, 31 Dec 9999 23:59:59 -0100', b'Sat, 01 Jan 0001 00:00:00 +0100', b'0001-01-01T00:00:00+01:00',
+    b'Thu, 01 Jan 1970 00:00:00 -2400', b'Thu, 01 Jan 1970 00:00:00 +2359', b'9999-12-31T23:59:59-23:59', b'1 Jan 1 0:0:0 +9',
     b'Mon, 99 Foo 9999 99:99:99 GMT', b'Thu, 01 Jan 1970 00:00:00 +9999', b'99999999999999999999', b'1' + b'0' * 400,
 )
+
+
+_ENUM_TOKENS = None
+
+
+def enum_tokens():
+    """Every textual code of the library's string-coded enumerations (directive names, keywords, algorithm names):
+    a dictionary for grammar-aware faults, so that e.g. a directive name the enum knows but no parser class handles
+    is tried."""
+    global _ENUM_TOKENS  # pylint: disable=global-statement
+    if _ENUM_TOKENS is None:
+        import enum
+        import sys
+        tokens = []
+        for name in sorted(sys.modules):
+            if not name.startswith('cryptoparser.'):
+                continue
+            module = sys.modules[name]
+            for attr_name in sorted(vars(module)):
+                obj = vars(module)[attr_name]
+                if isinstance(obj, type) and issubclass(obj, enum.Enum) and obj.__module__ == name:
+                    for member in obj:
+                        code = getattr(member.value, 'code', None)
+                        if isinstance(code, str) and 0 < len(code) <= 48:
+                            try:
+                                token = code.encode('ascii')
+                            except UnicodeError:
+                                continue
+                            if token not in tokens:
+                                tokens.append(token)
+        _ENUM_TOKENS = tokens[:3000]
+    return _ENUM_TOKENS
 
 
 def is_text(data):
@@ -164,4 +198,43 @@ def token_faults(rng, data):
             if data[idx] in b';,\r\n' or (data[idx] == 0x20 and rng.random() < 0.3):
                 end = idx
                 break
-    return [{'k': 'token', 'at': at, 'end': end, 'hex': rng.choice(TOKENS).hex()}]
+    pool = enum_tokens()
+    token = rng.choice(pool) if pool and rng.random() < 0.45 else rng.choice(TOKENS)
+    if rng.random() < 0.2:
+        token = token + b' ' + rng.choice(TOKENS + tuple(pool[:200]))
+    return [{'k': 'token', 'at': at, 'end': end, 'hex': token.hex()}]
+
+
+import re as _re
+
+TYPED_PATTERNS = (
+    ('date', _re.compile(rb'[A-Z][a-z]{2}, \d{1,2}[ -][A-Z][a-z]{2}[ -]\d{2,4} \d{2}:\d{2}:\d{2}(?: [A-Z]{3}| [+-]\d{4})?'),
+     (b'Fri, 31 Dec 9999 23:59:59 -0100', b'Sat, 01 Jan 0001 00:00:00 +0100', b'0001-01-01T00:00:00+01:00',
+      b'Thu, 01 Jan 1970 00:00:00 -2400', b'Thu, 01 Jan 1970 00:00:00 +2359', b'Wed, 21 Oct 2015 07:28:00 +0200',
+      b'Wed, 21 Oct 2015 07:28:00 PST', b'9999-12-31T23:59:59-23:59', b'Mon, 99 Foo 9999 99:99:99 GMT', b'1 Jan 1 0:0:0 +9',
+      b'Thu, 01 Jan 1970 00:00:00 GMT', b'31 Dec 99999 00:00:00 GMT', b'Tue, 19 Jan 2038 03:14:08 GMT', b'now')),
+    ('number', _re.compile(rb'(?<![0-9A-Za-z.])\d+(?![0-9A-Za-z.])'),
+     (b'0', b'-1', b'1.5', b'1e9', b'4294967296', b'18446744073709551616', b'9' * 5000, b'00000000001', b'0x10', b'')),
+    ('url', _re.compile(rb'(?:https?|wss?|mailto):[^ ;,"\r\n]*'),
+     (b'http://[', b'http://[::1', b'https://', b'http://a:b:c', b'http://a:99999999/', b'mailto:', b'//x', b'https://\xc3\xa9.example',
+      b'http://' + b'a' * 300 + b'.example', b'https://a..b/', b'javascript:0')),
+    ('quoted', _re.compile(rb'"[^"\r\n]*"'), (b'""', b'"', b'"\\"', b'"a"b"', b"'x'", b'"' + b'q' * 300 + b'"')),
+    ('ipv4', _re.compile(rb'\d{1,3}\.\d{1,3}\.\d{1,3}\.\d{1,3}(?:/\d+)?'),
+     (b'1.2.3', b'256.1.1.1', b'1.2.3.4/33', b'::1', b'1.2.3.4/-1', b'1.2.3.4.5', b'')),
+    ('base64', _re.compile(rb'[A-Za-z0-9+/]{12,}={0,2}'), (b'A', b'AAAA', b'====', b'A===', b'!!!!', b'AAAAA')),
+)
+
+
+def typed_faults(rng, data):
+    """Replace one value the input visibly carries (a date, a number, a URL, a quoted string, an address, a base64
+    blob) with another well-formed or subtly broken value *of the same kind*."""
+    spans = []
+    for _, pattern, values in TYPED_PATTERNS:
+        for match in pattern.finditer(data):
+            spans.append((match.start(), match.end(), values))
+            if len(spans) > 64:
+                break
+    if not spans:
+        return token_faults(rng, data)
+    start, end, values = rng.choice(spans)
+    return [{'k': 'token', 'at': start, 'end': end, 'hex': rng.choice(values).hex()}]
